@@ -70,11 +70,14 @@ def write_pcapng(items, cfg):
     if cfg.get("idb_name"):
         opts += _opt(e, 2, b"tap0")
     res = cfg.get("tsresol")
+    o_res = o_off = b""
     if res is not None:
         kind, k = res
-        opts += _opt(e, 9, bytes([k | (0x80 if kind == "bin" else 0)]))
+        o_res = _opt(e, 9, bytes([k | (0x80 if kind == "bin" else 0)]))
     if cfg.get("tsoffset", 0) != 0 or cfg.get("force_tsoffset"):
-        opts += _opt(e, 14, struct.pack(e + "q", cfg.get("tsoffset", 0)))
+        o_off = _opt(e, 14, struct.pack(e + "q", cfg.get("tsoffset", 0)))
+    # options may come in any order
+    opts += (o_off + o_res) if cfg.get("tsoffset_first") else (o_res + o_off)
     if opts:
         opts += _opt(e, 0, b"")
     out.append(_block(e, 1, idb + opts))
